@@ -18,8 +18,15 @@ ACCEPT_KINDS = ["correct", "other_key", "no_guid", "swapcase", "lower", "upper",
 # wrong Upgrade values include characters that are special to str.format / % formatting / logging
 UPGRADES = ["websocket", "WebSocket", "WEBSOCKET", "wEbSoCkEt", "h2c", "websocket2", "web socket", "websockets", "",
             "{websocket}", "websocket{}", "{0}", "%s%d", "h2c; profile={x}", "web\\socket"]
+DUP_NAMES = ["Upgrade", "upgrade", "UPGRADE", "uPgRaDe", "Sec-WebSocket-Accept", "sec-websocket-accept",
+             "SEC-WEBSOCKET-ACCEPT", "Sec-Websocket-accept"]
 REASONS = ["Switching Protocols", "", "OK", "Web Socket Protocol Handshake", "Forbidden", "x y z", "{}", "{0} %s {x!r}"]
 STATUSES = [101, 101, 101, 101, 200, 100, 204, 301, 400, 403, 404, 426, 500, 503, 102, 1010, 10]
+# status tokens that are NOT the three digits "101" although a lenient number parser reads 101 out of them, and
+# separators other than SP (control characters that str.split() - unlike bytes.split() - treats as white space)
+ODD_STATUSES = ["+101", "0101", "1_0_1", "101.0", "1e2", "-101", "101_"]
+SEPS_BEFORE_STATUS = ["\x1f", "\x1c", " \x1d", "\x1e"]      # all leave the status token glued to something
+SEPS_AFTER_STATUS = ["\x1f", "\x1c", "\x1e ", "\x1d"]
 FRAME_AFTER = wire.build_frame(wire.TEXT, b"must-not-be-delivered-unless-ready")
 
 
@@ -50,6 +57,14 @@ def reply_spec(r):
         headers.append(["Sec-WebSocket-Extensions", e])
     for name, value in r.get("extra", []):
         headers.append([name, value])
+    # a critical header REPEATED (any casing of its name) with another value: the field values combine
+    # (RFC 7230 3.2.2), and the combination is neither "websocket" nor the digest
+    for d in r.get("dups", []):
+        value = "{accept:%s}" % d["value"] if d["name"].lower() == "sec-websocket-accept" else d["value"]
+        idx = next((i for i, h in enumerate(headers) if h[0].lower() == d["name"].lower()), None)
+        if idx is None:
+            continue
+        headers.insert(idx if d.get("first") else idx + 1, [d["name"], value])
     # permutation, casing, whitespace, folding
     order = r.get("order", [])
     for i, j in enumerate(order):
@@ -75,6 +90,9 @@ def reply_spec(r):
             opts["pre"] = "\r\n" + (ows[0] or " ")
         out.append([name, value, opts])
     spec = {"status": r["status"], "reason": r.get("reason", "Switching Protocols"), "headers": out}
+    for k in ("sep", "sep2"):
+        if r.get(k, " ") != " ":
+            spec[k] = r[k]
     if r.get("pad_to"):
         spec["pad_to"] = r["pad_to"]
     if r.get("terminate") is False:
@@ -111,7 +129,9 @@ class C10(Prop):
         hname = st.from_regex(r"X-[A-Za-z][A-Za-z0-9\-]{0,10}", fullmatch=True)
         hval = st.from_regex(r"[!-~]([ -~]{0,18}[!-~])?", fullmatch=True)
         reply = st.fixed_dictionaries({
-            "status": gen.weighted([(1, st.just(101)), (1, st.sampled_from(STATUSES))]),
+            "status": gen.weighted([(6, st.just(101)), (6, st.sampled_from(STATUSES)), (1, st.sampled_from(ODD_STATUSES))]),
+            "sep": gen.weighted([(12, st.just(" ")), (1, st.sampled_from(SEPS_BEFORE_STATUS))]),
+            "sep2": gen.weighted([(12, st.just(" ")), (1, st.sampled_from(SEPS_AFTER_STATUS))]),
             "reason": st.sampled_from(REASONS),
             "upgrade": gen.weighted([(1, st.none()), (7, st.sampled_from(UPGRADES[:4] * 3 + UPGRADES))]),
             "accept": gen.weighted([(8, st.just("correct")), (8, st.sampled_from(ACCEPT_KINDS)), (1, st.just("missing"))]),
@@ -127,6 +147,11 @@ class C10(Prop):
                                 st.sampled_from([16384, 16385, 20000, 70000])),
             "terminate": gen.weighted([(6, st.just(True)), (1, st.just(False))]),
             "deflate": st.booleans(),
+            "dups": gen.weighted([(5, st.just([])), (1, st.lists(st.one_of(
+                st.fixed_dictionaries({"name": st.sampled_from(DUP_NAMES[:4]), "value": st.sampled_from(UPGRADES[4:] + ["websocket"]),
+                                       "first": st.booleans()}),
+                st.fixed_dictionaries({"name": st.sampled_from(DUP_NAMES[4:]), "value": st.sampled_from(ACCEPT_KINDS),
+                                       "first": st.booleans()})), min_size=1, max_size=2))]),
         })
         return st.fixed_dictionaries({
             "url": url,
@@ -205,7 +230,29 @@ class C10(Prop):
                                 yield dict(base, url={"scheme": scheme, "host": host, "port": port, "path": path,
                                                       "query": query, "userinfo": userinfo},
                                            reply={"status": 101, "upgrade": "websocket", "accept": "correct", "terminate": True})
+        def odd_status_lines():
+            # otherwise perfect replies whose status line is not "HTTP/1.1 SP 101 SP reason": never Ready
+            for st_ in ODD_STATUSES:
+                yield dict(base, reply={"status": st_, "upgrade": "websocket", "accept": "correct", "terminate": True})
+            for sep in SEPS_BEFORE_STATUS:
+                yield dict(base, reply={"status": 101, "upgrade": "websocket", "accept": "correct", "terminate": True, "sep": sep})
+            for sep in SEPS_AFTER_STATUS:
+                yield dict(base, reply={"status": 101, "upgrade": "websocket", "accept": "correct", "terminate": True, "sep2": sep})
+                yield dict(base, reply={"status": 403, "upgrade": "websocket", "accept": "correct", "terminate": True,
+                                        "sep2": sep, "reason": "101 Switching Protocols"})
+
+        def repeated_headers():
+            # Upgrade / Sec-WebSocket-Accept sent twice, the second spelled in any casing, one of the two values wrong,
+            # in both orders: never Ready
+            for name in DUP_NAMES:
+                is_accept = "accept" in name.lower()
+                for wrong in (["other_key", "empty", "lower"] if is_accept else ["h2c", "", "websocket2"]):
+                    for first in (False, True):
+                        yield dict(base, reply={"status": 101, "upgrade": "websocket", "accept": "correct", "terminate": True,
+                                                "dups": [{"name": name, "value": wrong, "first": first}]})
         return [Enumeration("url_shapes", url_shapes, exhaustive=True),
+                Enumeration("repeated_critical_headers", repeated_headers, exhaustive=True),
+                Enumeration("malformed_status_lines", odd_status_lines, exhaustive=True),
                 Enumeration("accept_x_upgrade_x_status", accepts, exhaustive=True),
                 Enumeration("header_spellings", spellings, exhaustive=True), after_every_prelude(battery),
                 with_companion(battery)]
@@ -240,8 +287,11 @@ class C10(Prop):
         tr = traces[0]
         sim = tr.sim
         labels = {"scheme:" + u["scheme"]}
+        # the status line is "HTTP/1.1 SP status SP reason"; the generated other separators leave the status token glued to
+        # a control character (FS/GS/RS/US: white space to str.split() but not to bytes.split() nor to HTTP)
+        wellformed_line = r.get("sep", " ") == " " and r.get("sep2", " ") == " "
         canonical = (r["status"] == 101 and r.get("upgrade") == "websocket" and r["accept"] == "correct"
-                     and not r.get("extra") and not r.get("order") and set(r.get("casing", [0])) == {0}
+                     and not r.get("extra") and not r.get("order") and not r.get("dups") and wellformed_line and set(r.get("casing", [0])) == {0}
                      and not r.get("pad_to") and r.get("terminate", True)
                      and all(o == [" ", ""] for o in r.get("ows", [[" ", ""]])))
         near_miss = r["accept"] not in ("correct", "missing", "empty")
@@ -273,7 +323,7 @@ class C10(Prop):
         names = tr.names()
         accept = eff.get("sec-websocket-accept")
         upgrade = eff.get("upgrade")
-        should_ready = (terminated and block <= 16384 and status == 101 and upgrade is not None
+        should_ready = (terminated and block <= 16384 and status == 101 and wellformed_line and upgrade is not None
                         and upgrade.lower() == "websocket" and accept == digest)
         msgs = [n for n in names if n in simnet.MESSAGE_EVENTS or n == "poll"]
         if block > 16384:
